@@ -148,6 +148,12 @@ def directed_for_file(arg):
             goals["odd-char"] = lambda s: any(c not in cs for c in s)
         for g, dr in scen.leaf_search(d, jpath, tm, goals, rng, base, tries=t).items():
             out.append(("%s at /%s" % (g, "/".join(map(str, jpath))), dr))
+        # constructive: word lengths chosen so that the cut of a substr keeps a blank / punctuation as its last character
+        try:
+            for c, dr in scen.cut_search(d, jpath, tm, " ,'-./", rng, base).items():
+                out.append(("cut-on-%s at /%s" % ({" ": "blank", ",": "comma", "'": "apostrophe", "-": "hyphen", ".": "dot", "/": "slash"}[c], "/".join(map(str, jpath))), dr))
+        except scen.Opaque:
+            pass
     res = []
     for how, dr in out:
         if dr is None:
@@ -208,7 +214,7 @@ def run(ctx):
     ctx.rule = ("every scenario file under /repo/test_scenarios (all 30 types; index and README excluded). (a) proof side: every text leaf with a requirement, all draws "
                 "(gen/Scenarios.v). (b) N random draws of the library's own generator per file (quick %d, thorough 300). (c) directed draws per file: every generator at its "
                 "longest / shortest / most unusual value, BIC countries DE/US/AD/GB, dates 2028-02-29 / 2049-12-31 / 2030-01-01 / 2026-12-31, and for every variable "
-                "leaf a search (%d tries) for values that end in a blank, end or start in punctuation, contain an apostrophe, fill the component exactly or by one less; "
+                "leaf a search (%d tries) for values that end in a blank, end or start in punctuation, contain an apostrophe, fill the component exactly or by one less, plus a constructive choice of word lengths that makes the cut of a substr land on a blank or on punctuation; "
                 "the fake nodes are replaced by the chosen values and the library's own generator evaluates the rest. (d) strings drawn from each requirement at a leaf "
                 "that has it. Every draw goes through generate_mt -> publish_mt -> validate_mt -> parse_mt; it passes when all succeed, validation reports valid "
                 "with no error, and the parsed JSON equals the generated JSON exactly; distinct = (scenario file, generated MT text)") % (n_random, tries)
